@@ -104,7 +104,7 @@ def protocol_section():
     return s
 
 
-def returned_forms(fn):
+def returned_exprs(fn):
     """The sorted distinct expressions a function returns, with every local that is assigned exactly once (a plain
     `name = expr`, not a parameter, not a loop / with / except target) replaced by its defining expression: the obligation on
     what is returned does not depend on how many temporaries the code uses."""
@@ -136,12 +136,16 @@ def returned_forms(fn):
                 finally:
                     self.depth -= 1
             return node
-    out = set()
+    out = {}
     for n in ast.walk(fn):
         if isinstance(n, ast.Return) and n.value is not None:
             e = Sub().visit(ast.parse(ast.unparse(n.value), mode="eval").body)
-            out.add(ast.unparse(e))
-    return sorted(out)
+            out[ast.unparse(e)] = e
+    return [out[k] for k in sorted(out)]
+
+
+def returned_forms(fn):
+    return [ast.unparse(e) for e in returned_exprs(fn)]
 
 
 def entry_section():
@@ -154,19 +158,45 @@ def entry_section():
             s.obl(f"{mod}.{name}", DISCHARGED if ok else FAILED, "frame", detail=str(detail), function=f"{mod}.{name.split(':')[0]}")
 
         fn = prog.functions.get(f"{mod}.loads")
-        rets = returned_forms(fn)
-        ob("loads:returns-parser.parse(s)-only", rets == ["parser.parse(s)"], rets)
+        rets = returned_exprs(fn)
+        text = fn.args.args[0].arg
+
+        def parse_call(e):
+            # <parser>.parse(<the text>) where <parser> is the parser argument or a parser constructed here
+            return (isinstance(e, ast.Call) and isinstance(e.func, ast.Attribute) and e.func.attr == "parse" and not e.keywords
+                    and [ast.unparse(a) for a in e.args] == [text]
+                    and (ast.unparse(e.func.value) == "parser" or (isinstance(e.func.value, ast.Call)
+                                                                  and ast.unparse(e.func.value.func) == "OmniParser")))
+        ob("loads:returns-parser.parse(s)-only", bool(rets) and all(parse_call(e) for e in rets), [ast.unparse(e) for e in rets])
         calls = [ast.unparse(c.func) for c in ast.walk(fn) if isinstance(c, ast.Call)]
         ob("loads:default-parser-is-OmniParser", "OmniParser" in calls, calls)
         fn = prog.functions.get(f"{mod}.dump")
         # every return of dump() is the count reported by one write of exactly dumps(module, **kwargs) (directly, or through
         # names assigned once), as text or as its UTF-8 encoding
-        rets = returned_forms(fn)
-        allowed_rets = {"Path(path).write_text(dumps(module, **kwargs))", "path.write(dumps(module, **kwargs))",
-                        "path.write(dumps(module, **kwargs).encode())"}
-        ob("dump:writes-exactly-dumps()-and-returns-the-callee-count", bool(rets) and set(rets) <= allowed_rets
-           and "Path(path).write_text(dumps(module, **kwargs))" in rets, rets)
+        rets = returned_exprs(fn)
+
+        def dumped(e):
+            if isinstance(e, ast.IfExp):
+                return dumped(e.body) and dumped(e.orelse)
+            if isinstance(e, ast.Call) and isinstance(e.func, ast.Attribute) and e.func.attr == "encode" and not e.args and not e.keywords:
+                return dumped(e.func.value)
+            return ast.unparse(e) == "dumps(module, **kwargs)"
+
+        def write_call(e):
+            if not (isinstance(e, ast.Call) and isinstance(e.func, ast.Attribute) and len(e.args) == 1 and not e.keywords and dumped(e.args[0])):
+                return None
+            target = (e.func.attr, ast.unparse(e.func.value))
+            return target if target in (("write_text", "Path(path)"), ("write", "path")) else None
+        kinds = [write_call(e) for e in rets]
+        ob("dump:writes-exactly-dumps()-and-returns-the-callee-count", bool(rets) and all(kinds) and ("write_text", "Path(path)") in kinds,
+           [ast.unparse(e) for e in rets])
         fn = prog.functions.get(f"{mod}.dumps")
-        rets = returned_forms(fn)
-        ob("dumps:returns-encoder.encode(module)-only", rets == ["encoder.encode(module)"], rets)
+        rets = returned_exprs(fn)
+
+        def encode_call(e):
+            return (isinstance(e, ast.Call) and isinstance(e.func, ast.Attribute) and e.func.attr == "encode" and not e.keywords
+                    and [ast.unparse(a) for a in e.args] == ["module"]
+                    and (ast.unparse(e.func.value) == "encoder" or (isinstance(e.func.value, ast.Call)
+                                                                   and ast.unparse(e.func.value.func) == "PDSLabelEncoder")))
+        ob("dumps:returns-encoder.encode(module)-only", bool(rets) and all(encode_call(e) for e in rets), [ast.unparse(e) for e in rets])
     return s
